@@ -51,7 +51,21 @@ func main() {
 	jsonOut := flag.String("json", "", "write all obligations of the run as JSON to this file")
 	selftest := flag.String("selftest", "", "file with the output of tools/selftest.sh to embed in the evidence")
 	emit := flag.Bool("emit-manifest", false, "print MANIFEST.json for the registered properties")
+	emitRules := flag.Bool("emit-rules", false, "print the rule registry as a markdown table (DESIGN.md appendix F)")
 	flag.Parse()
+	if *emitRules {
+		for _, id := range []string{"C01", "C02", "C03", "C04", "C05", "C06", "C07", "C08", "C09", "C10", "C11", "C12", "C13", "C14", "C15", "C16", "C17", "C18"} {
+			p := rules.Registry[id]
+			if p == nil {
+				continue
+			}
+			fmt.Printf("\n**%s** (%d rules)\n\n| rule | tier | what it decides |\n|------|------|-----------------|\n", id, len(p.Rules))
+			for _, r := range p.Rules {
+				fmt.Printf("| %s | %s | %s |\n", r.ID, r.Tier, strings.ReplaceAll(r.Doc, "|", "∣"))
+			}
+		}
+		return
+	}
 	if *emit {
 		emitManifest()
 		return
